@@ -104,7 +104,7 @@ def scenario(draw, max_steps=12, reverse=None, layouts=("sparse", "dense"), extr
 
 
 def build(d: Path, scn, out_name="out.nc", record_output=True, record_ibm=False, extra_conf=None,
-          shift_steps=0, ibm_offset=0):
+          shift_steps=0, ibm_offset=0, vel_sign=1.0):
     """Write all files of a scenario into directory d; returns (conf_path, meta)."""
     g = scn["grid"]
     G = roms.make_grid(g["jm"], g["im"], N=g["N"], h=g["h"], hval=80.0, mask=g["mask"], dx=DX,
@@ -120,6 +120,7 @@ def build(d: Path, scn, out_name="out.nc", record_output=True, record_ibm=False,
     ftimes = [start + scen.S(sgn * int(s) * DT) for s in fsteps]
     nfr = len(ftimes)
     U, V = scen.vel_arrays(G, nfr, f["vel"], seed=f["vel"]["seed"])
+    U, V = vel_sign * U, vel_sign * V
     extra = None
     if f["temp"]:
         rng = np.random.default_rng(f["vel"]["seed"] + 7)
@@ -131,7 +132,7 @@ def build(d: Path, scn, out_name="out.nc", record_output=True, record_ibm=False,
         extra = {k: v[order] for k, v in extra.items()}
     part = f["partition"] if not rev else f["partition"][::-1]
     fname, files = scen.write_forcing(d, G, ft, U, V, partition=part, extra=extra)
-    cells = sea_cells(G)
+    cells = sea_cells(G, g.get("sub"))
     if not cells:
         raise ValueError("no sea cell")
     rel = scn["release"]
@@ -172,6 +173,8 @@ def build(d: Path, scn, out_name="out.nc", record_output=True, record_ibm=False,
                          numrec=o["numrec"], layout=o["layout"], reverse=rev, reference=ref,
                          ivars=ivars, dtype=o["dtype"])
     conf["output"]["instance_variables"]["tag"] = e2e.outvar("i4")
+    if g.get("sub"):
+        conf["grid"]["subgrid"] = list(g["sub"])
     state = {"instance_variables": {"tag": "int", "age": "float"}, "default_values": {"age": 0.0}}
     if o["lonlat"]:  # as in examples/latlon: lon, lat are state variables with defaults
         state["instance_variables"].update(lon="float", lat="float")
